@@ -76,6 +76,63 @@ class PipelineAdd(Contract):
 
 
 @register
+class PipelineAddElements(Contract):
+    """p1 + p2 keeps EVERY item of both operands, in order - also items that compare equal (pipeline items are dataclasses with structural
+    equality: two pipelines may contain identically configured steps, and applying a step twice is not applying it once)"""
+    id = "C14.ProcessingPipeline.__add__[elements]"
+    target = "sigma.processing.pipeline:ProcessingPipeline.__add__"
+    props = ("C14",)
+    cases = ((0, 1), (1, 1), (2, 1), (1, 2), (2, 2))
+    assumed = ["list lengths unrolled (0..2 per operand); == between two different items is an arbitrary symmetric relation"]
+
+    def setup(self, E):
+        install(E)
+
+    def args(self, I, case):
+        na, nb = case
+        cinfo = I.E.index.lookup("sigma.processing.pipeline:ProcessingPipeline")
+
+        def items(tag, n):
+            out = []
+            for i in range(n):
+                o = SObj("Item", {})
+                o.ghost["eq_unknown"] = f"{tag}{i}"
+                out.append(o)
+            return out
+        ops_ = {}
+        for name, n in (("self", na), ("other", nb)):
+            f = {c: items(f"{name}.{c}.", n) for c, _ in COMPONENTS}
+            f["vars"] = I.fresh(f"{name}.vars", "opaque", "Dict")
+            ops_[name] = SObj(cinfo, f, lazy=True)
+            ops_[name].ghost["cleared"] = False
+        snap = {name: {c: list(o.fields[c]) for c, _ in COMPONENTS} for name, o in ops_.items()}
+        return {"self": ops_["self"], "args": [ops_["other"]], "snap": snap}
+
+    def post(self, I, inp, r):
+        c = I.ctx
+        ok = isinstance(r, SObj) and r is not inp["self"]
+        c.require(ok, "result is a new pipeline")
+        if ok:
+            for comp, _ in COMPONENTS:
+                want = inp["snap"]["self"][comp] + inp["snap"]["other"][comp]
+                got = r.fields.get(comp)
+                got = I.force(got) if not isinstance(got, list) else got
+                c.require(isinstance(got, list) and len(got) == len(want) and all(x is y for x, y in zip(got, want)), f"{comp}: every item of self, then every item of other - none dropped, none merged")
+
+    def replay(self, values):
+        """two different pipelines with an identically configured step, on the real code"""
+        from sigma.processing.pipeline import ProcessingPipeline
+        mk = lambda: ProcessingPipeline.from_dict({"name": "p", "priority": 10, "transformations": [{"id": "dbl", "type": "replace_string", "regex": "a", "replacement": "aa"}],
+                                                     "postprocessing": [{"type": "embed", "prefix": "[", "suffix": "]"}], "finalizers": [{"type": "concat", "prefix": "<", "suffix": ">"}]})
+        p = mk() + mk()
+        n = (len(p.items), len(p.postprocessing_items), len(p.finalizers))
+        return None if n == (2, 2, 2) else f"p1 + p2 of two pipelines with identically configured steps has (items, postprocessing items, finalizers) = {n} instead of (2, 2, 2)"
+
+    def frame_ok(self, I, inp, obj, name):
+        return False
+
+
+@register
 class PipelineRAdd(Contract):
     id = "C14.ProcessingPipeline.__radd__"
     target = "sigma.processing.pipeline:ProcessingPipeline.__radd__"
@@ -152,6 +209,16 @@ class InitProcessingPipeline(Contract):
             return r
         E.summaries["sigma.processing.pipeline:ProcessingPipeline.__add__"] = s_add
 
+        def s_new(I, self_obj, args, kwargs):       # ProcessingPipeline(): an empty pipeline, the identity of +
+            if args or kwargs:
+                raise OutsideSubset("ProcessingPipeline(...) with arguments inside init_processing_pipeline")
+            r = mk_pipeline(I, "empty")
+            r.ghost["operands"] = []
+            r.fields["vars"] = {}
+            r.born = I.ctx
+            return r
+        E.summaries["sigma.processing.pipeline:ProcessingPipeline"] = s_new
+
     def args(self, I, case):
         from pyvc.builtins_ import SDefaultDict
         cinfo = I.E.index.lookup("sigma.conversion.base:Backend")
@@ -159,6 +226,7 @@ class InitProcessingPipeline(Contract):
         for p, n in ((bp, "backend"), (up, "user"), (fp, "format")):
             p.ghost["name"] = n
             p.fields["vars"] = {}
+            p.fields["priority"] = I.fresh(f"{n}.priority", "int")       # the stage order must not depend on the priorities
         ofp = SDefaultDict()
         ofp.factory = NativeFn("ProcessingPipeline", lambda I2, a, k: fp)      # defaultdict(ProcessingPipeline): an (empty) pipeline for formats without one
         if case == "format_pipeline":
